@@ -145,9 +145,10 @@ Qed.
 Lemma ty_ind' (P : ty -> Prop)
   (Hn : P TyNull) (Hb : P TyBool) (Hi : forall k, P (TyInt k)) (Hd : P TyDbl) (Hs : P TyStr)
   (Hv : forall e, P e -> P (TyVec e)) (Hm : forall e, P e -> P (TyMap e))
-  (Ho : forall fields, Forall (fun f => P (snd f)) fields -> P (TyObj fields)) : forall t, P t.
+  (Ho : forall fields, Forall (fun f => P (snd f)) fields -> P (TyObj fields))
+  (Hop : forall e, P e -> P (TyOpt e)) (Hf : P TyFlt) (He : forall names, P (TyEnum names)) : forall t, P t.
 Proof.
-  fix IH 1. intros [ | | k | | | e | e | fields ].
+  fix IH 1. intros [ | | k | | | e | e | fields | e | | names ].
   - exact Hn.
   - exact Hb.
   - apply Hi.
@@ -156,6 +157,9 @@ Proof.
   - apply Hv, IH.
   - apply Hm, IH.
   - apply Ho. revert fields. fix IHf 1. intros [|[[k fk] ft] fields]; constructor; [apply IH | apply IHf].
+  - apply Hop, IH.
+  - exact Hf.
+  - apply He.
 Qed.
 
 (* field names of a class are pairwise different (C++: KeyValue keys of one Serialize()); for the JSON
@@ -166,10 +170,17 @@ Fixpoint names_distinct (ks : list (list N)) : bool :=
   | k :: r => negb (existsb (key_eqb k) r) && names_distinct r
   end.
 
+Definition is_opt (t : ty) : bool := match t with TyOpt _ => true | _ => false end.
+Definition is_nullty (t : ty) : bool := match t with TyNull => true | _ => false end.
+
+(* an optional / smart pointer holds something other than another optional or a nullptr_t (for those "empty" and
+   "holding an empty one" are written alike) *)
 Fixpoint ty_wf (t : ty) : bool :=
   match t with
   | TyVec e | TyMap e => ty_wf e
   | TyObj fields => names_distinct (map (fun f => fst (fst f)) fields) && forallb (fun f => ty_wf (snd f)) fields
+  | TyOpt e => ty_wf e && negb (is_opt e) && negb (is_nullty e)
+  | TyFlt | TyEnum _ => false         (* float and enum targets: correspondence only, outside the theorems *)
   | _ => true
   end.
 
@@ -178,6 +189,8 @@ Fixpoint val_nonfinite (v : val) : bool :=
   | VDbl b => is_nonfinite b
   | VArr l => existsb val_nonfinite l
   | VObj m => existsb (fun kv => val_nonfinite (snd kv)) m
+  | VOpt (Some x) => val_nonfinite x
+  | VFlt d => is_nonfinite d
   | _ => false
   end.
 
@@ -209,17 +222,29 @@ Section RoundTrip.
   Variable i2d : Z -> N.
   Variable o : opts.
 
+  (* what a fresh target of type t holds after the load *)
+  Definition got (t : ty) (r : lout) : option val :=
+    match r with Loaded v => Some v | NotLoaded => Some (default t) | Failed _ => None end.
+
   Definition rt_ok (t : ty) : Prop := forall v d, has_type t v = true ->
+    save_inner t v = Some d -> got t (load_inner i2d o t d) = Some v.
+  Definition rt_strong (t : ty) : Prop := forall v d, has_type t v = true ->
     save_inner t v = Some d -> load_inner i2d o t d = Loaded v.
 
-  Lemma rt_vec e : rt_ok e -> rt_ok (TyVec e).
+  Lemma rt_strong_ok t : rt_strong t -> rt_ok t.
+  Proof. intros H v d Ht Hs. rewrite (H v d Ht Hs). reflexivity. Qed.
+
+  Lemma rt_vec e : rt_ok e -> (is_boolty e = true -> rt_strong e) -> rt_strong (TyVec e).
   Proof.
-    intros IH v d Ht Hs. destruct v; try discriminate. cbn [has_type] in Ht.
+    intros IH IHb v d Ht Hs. destruct v; try discriminate. cbn [has_type] in Ht.
     cbn [save_inner] in Hs. destruct (opt_map (save_inner e) l) as [ds|] eqn:E; [|discriminate]. inversion Hs; subst. clear Hs.
-    apply opt_map_spec in E. cbn [load_inner].
-    induction E as [|x y l ds Hxy _ IHl]; [reflexivity|].
+    apply opt_map_spec in E. cbn [load_inner]. generalize (VBool false) as prev.
+    induction E as [|x y l ds Hxy _ IHl]; intros prev; [reflexivity|].
     cbn in Ht. apply andb_true_iff in Ht. destruct Ht as [Ht1 Ht2].
-    rewrite (IH x y Ht1 Hxy). rewrite (IHl Ht2). reflexivity.
+    destruct (is_boolty e) eqn:Eb.
+    - rewrite (IHb eq_refl x y Ht1 Hxy). rewrite (IHl Ht2). reflexivity.
+    - pose proof (IH x y Ht1 Hxy) as G.
+      destruct (load_inner i2d o e y); cbn in G; inversion G; subst; rewrite (IHl Ht2); reflexivity.
   Qed.
 
   (* the loop of the map loader, named *)
@@ -245,13 +270,13 @@ Section RoundTrip.
 
   Lemma map_go_ok e dm : forall (ms : list (list N * rj)) (vs : list (list N * val)),
     Forall2 (fun kd kv => fst kd = fst kv /\
-                          find_member dm (fst kv) = Some (snd kd) /\ load_inner i2d o e (snd kd) = Loaded (snd kv)) ms vs ->
+                          find_member dm (fst kv) = Some (snd kd) /\ got e (load_inner i2d o e (snd kd)) = Some (snd kv)) ms vs ->
     forall acc : list (list N * val), keys_sorted (map fst acc ++ map fst vs) = true ->
     map_go e dm ms acc = Loaded (VObj (acc ++ vs)).
   Proof.
     induction 1 as [|[k d] [k' v] ms vs [Hk [Hf Hl]] _ IH]; intros acc Hs.
     - rewrite app_nil_r. reflexivity.
-    - cbn [fst snd] in *. subst k'. cbn [map_go]. rewrite Hf, Hl.
+    - cbn [fst snd] in *. subst k'. cbn [map_go]. rewrite Hf.
       assert (Hins : map_insert k v acc = acc ++ [(k, v)]).
       { apply map_insert_append. clear -Hs. induction acc as [|[a va] acc IHa]; [constructor|].
         cbn [map app fst] in Hs. destruct (keys_sorted_cons _ _ Hs) as [H1 H2]. constructor.
@@ -259,9 +284,9 @@ Section RoundTrip.
           assert (Hin : In k (map fst acc ++ map fst ((k, v) :: vs))) by (apply in_or_app; right; left; reflexivity).
           rewrite (proj1 (Forall_forall _ _) H1 k Hin). reflexivity.
         - apply IHa. exact H2. }
-      rewrite Hins, IH.
-      + rewrite <- app_assoc. reflexivity.
-      + rewrite map_app, <- app_assoc. exact Hs.
+      assert (Hrest : map_go e dm ms (acc ++ [(k, v)]) = Loaded (VObj (acc ++ (k, v) :: vs))).
+      { rewrite IH; [rewrite <- app_assoc; reflexivity | rewrite map_app, <- app_assoc; exact Hs]. }
+      destruct (load_inner i2d o e d); cbn in Hl; inversion Hl; subst; rewrite Hins; exact Hrest.
   Qed.
 
   Lemma find_member_sorted (f : val -> option rj) : forall (m : list (list N * val)) (dm : list (list N * rj)),
@@ -287,7 +312,7 @@ Section RoundTrip.
       apply G; assumption.
   Qed.
 
-  Lemma rt_map e : rt_ok e -> rt_ok (TyMap e).
+  Lemma rt_map e : rt_ok e -> rt_strong (TyMap e).
   Proof.
     intros IH v d Ht Hs. destruct v; try discriminate. cbn [has_type] in Ht.
     apply andb_true_iff in Ht. destruct Ht as [Ht Hsort].
@@ -305,7 +330,7 @@ Section RoundTrip.
                  Forall2 (fun kd kv => fst kd = fst kv /\ find_member dm (fst kv) = Some (snd kd)) dm' m' ->
                  forallb (fun kv => forallb scalarb (fst kv) && has_type e (snd kv)) m' = true ->
                  Forall2 (fun kd kv => fst kd = fst kv /\
-                          find_member dm (fst kv) = Some (snd kd) /\ load_inner i2d o e (snd kd) = Loaded (snd kv)) dm' m').
+                          find_member dm (fst kv) = Some (snd kd) /\ got e (load_inner i2d o e (snd kd)) = Some (snd kv)) dm' m').
       { induction 1 as [|[k v] [k' d] m' dm' [Hk Hsv] _ IHG]; intros H2 H3; [constructor|].
         inversion H2 as [|? ? ? ? [_ Hfm] H2']; subst. cbn [fst snd forallb] in *.
         apply andb_true_iff in H3. destruct H3 as [H3a H3b]. apply andb_true_iff in H3a. destruct H3a as [_ Hty].
@@ -398,11 +423,12 @@ Section RoundTripObj.
       destruct (IH ms ds' Hrt2 Hty2 Es2) as [IH1 IH2].
       { intros k0 d0 Hin. apply Hfind. right. exact Hin. }
       split; [|cbn [map fst]; rewrite IH2; reflexivity].
-      cbn [obj_go]. rewrite (Hfind k d (or_introl eq_refl)). rewrite (Hrt1 fv d Hty1 Es). rewrite IH1. reflexivity.
+      cbn [obj_go]. rewrite (Hfind k d (or_introl eq_refl)). pose proof (Hrt1 fv d Hty1 Es) as G. rewrite IH1.
+      destruct (load_inner i2d o ft d); cbn in G; inversion G; subst; reflexivity.
   Qed.
 
   Lemma rt_obj fields : names_distinct (map (fun f => fst (fst f)) fields) = true ->
-    Forall (fun f => rt_ok i2d o (snd f)) fields -> rt_ok i2d o (TyObj fields).
+    Forall (fun f => rt_ok i2d o (snd f)) fields -> rt_strong i2d o (TyObj fields).
   Proof.
     intros Hd Hrt v d Ht Hs. destruct v; try discriminate.
     rewrite has_type_obj in Ht. rewrite save_inner_obj in Hs.
@@ -421,19 +447,40 @@ Section RoundTripObj.
     - exact G.
   Qed.
 
-  Lemma rt_all t : ty_wf t = true -> rt_ok i2d o t.
+  Lemma null_not_loaded e : is_opt e = false -> is_nullty e = false -> load_inner i2d o e RNull = NotLoaded.
+  Proof. destruct e; intros H1 H2; try discriminate; reflexivity. Qed.
+
+  Lemma rt_all t : ty_wf t = true -> rt_ok i2d o t /\ (is_opt t = false -> rt_strong i2d o t).
   Proof.
-    induction t as [ | | k | | | e IH | e IH | fields IH ] using ty_ind'; intros Hwf.
-    - intros v d Ht Hs. destruct v; try discriminate. cbn in Hs. inversion Hs. reflexivity.
-    - intros v d Ht Hs. destruct v; try discriminate. cbn in Hs. inversion Hs. reflexivity.
-    - intros v d Ht Hs. destruct v; try discriminate. cbn in Hs. inversion Hs. cbn in Ht |- *. rewrite Ht. reflexivity.
-    - intros v d Ht Hs. destruct v; try discriminate. cbn in Hs. inversion Hs. reflexivity.
-    - intros v d Ht Hs. destruct v; try discriminate. cbn in Hs. inversion Hs. reflexivity.
-    - apply rt_vec, IH. exact Hwf.
-    - apply rt_map, IH. exact Hwf.
-    - cbn [ty_wf] in Hwf. apply andb_true_iff in Hwf. destruct Hwf as [H1 H2]. apply rt_obj; [exact H1|].
-      clear H1. induction IH as [|f fields Hf _ IHf]; [constructor|].
-      cbn in H2. apply andb_true_iff in H2. destruct H2 as [H2 H3]. constructor; [apply Hf; exact H2 | apply IHf; exact H3].
+    induction t as [ | | k | | | e IH | e IH | fields IH | e IH | | names ] using ty_ind'; intros Hwf; try discriminate.
+    - assert (S : rt_strong i2d o TyNull). { intros v d Ht Hs. destruct v; try discriminate. cbn in Hs. inversion Hs. reflexivity. }
+      split; [apply rt_strong_ok, S | intros _; exact S].
+    - assert (S : rt_strong i2d o TyBool). { intros v d Ht Hs. destruct v; try discriminate. cbn in Hs. inversion Hs. reflexivity. }
+      split; [apply rt_strong_ok, S | intros _; exact S].
+    - assert (S : rt_strong i2d o (TyInt k)).
+      { intros v d Ht Hs. destruct v; try discriminate. cbn in Hs. inversion Hs. cbn in Ht |- *. rewrite Ht. reflexivity. }
+      split; [apply rt_strong_ok, S | intros _; exact S].
+    - assert (S : rt_strong i2d o TyDbl). { intros v d Ht Hs. destruct v; try discriminate. cbn in Hs. inversion Hs. reflexivity. }
+      split; [apply rt_strong_ok, S | intros _; exact S].
+    - assert (S : rt_strong i2d o TyStr). { intros v d Ht Hs. destruct v; try discriminate. cbn in Hs. inversion Hs. reflexivity. }
+      split; [apply rt_strong_ok, S | intros _; exact S].
+    - assert (S : rt_strong i2d o (TyVec e)).
+      { apply rt_vec; [apply IH; exact Hwf|]. intros Eb. apply (proj2 (IH Hwf)). destruct e; try discriminate; reflexivity. }
+      split; [apply rt_strong_ok, S | intros _; exact S].
+    - assert (S : rt_strong i2d o (TyMap e)) by (apply rt_map, IH; exact Hwf).
+      split; [apply rt_strong_ok, S | intros _; exact S].
+    - cbn [ty_wf] in Hwf. apply andb_true_iff in Hwf. destruct Hwf as [H1 H2].
+      assert (S : rt_strong i2d o (TyObj fields)).
+      { apply rt_obj; [exact H1|].
+        clear H1. induction IH as [|f fields Hf _ IHf]; [constructor|].
+        cbn in H2. apply andb_true_iff in H2. destruct H2 as [H2 H3]. constructor; [apply Hf; exact H2 | apply IHf; exact H3]. }
+      split; [apply rt_strong_ok, S | intros _; exact S].
+    - cbn [ty_wf] in Hwf. apply andb_true_iff in Hwf. destruct Hwf as [Hwf Hn]. apply andb_true_iff in Hwf. destruct Hwf as [Hwf Ho].
+      apply negb_true_iff in Hn, Ho. destruct (IH Hwf) as [_ S]. specialize (S Ho).
+      split; [|discriminate].
+      intros v d Ht Hs. destruct v as [ | | | | | | | [x|] | | ]; try discriminate.
+      + cbn [has_type save_inner] in Ht, Hs. cbn [load_inner]. rewrite (S x d Ht Hs). reflexivity.
+      + cbn in Hs. inversion Hs; subst. cbn [load_inner]. rewrite (null_not_loaded e Ho Hn). reflexivity.
   Qed.
 End RoundTripObj.
 
@@ -454,7 +501,7 @@ Definition rt_good (v : val) (r : rt) : Prop := r = SaveRaises \/ r = LoadedBack
 
 Lemma save_nonfinite t : forall v d, save_inner t v = Some d -> has_nonfinite d = val_nonfinite v.
 Proof.
-  induction t as [ | | k | | | e IH | e IH | fields IH ] using ty_ind'; intros v d Hs;
+  induction t as [ | | k | | | e IH | e IH | fields IH | e IH | | names ] using ty_ind'; intros v d Hs;
     try (destruct v; try discriminate; cbn in Hs; inversion Hs; reflexivity).
   - destruct v; try discriminate. cbn [save_inner] in Hs.
     destruct (opt_map (save_inner e) l) as [ds|] eqn:E; [|discriminate]. inversion Hs; subst. clear Hs. apply opt_map_spec in E.
@@ -472,13 +519,24 @@ Proof.
       destruct m as [|[k' fv] m]; [cbn in Es; discriminate|]. cbn [obj_save] in Es.
       destruct (save_inner ft fv) as [d|] eqn:Ed; [|discriminate]. destruct (obj_save fs m) as [ds'|] eqn:E2; [|discriminate].
       inversion Es; subst. cbn [existsb snd]. cbn [snd] in Hf. rewrite (Hf fv d Ed), (IHf m ds' E2). reflexivity.
+  - destruct v as [ | | | | | | | [x|] | | ]; try discriminate.
+    + cbn [save_inner] in Hs. cbn [val_nonfinite]. apply IH. exact Hs.
+    + cbn in Hs. inversion Hs. reflexivity.
+  - destruct v; try discriminate. cbn in Hs. destruct (nth_error names (N.to_nat i)); [|discriminate]. inversion Hs. reflexivity.
+Qed.
+
+Lemma save_root1_inner t v : has_type t v = true -> save_root1 t v = save_inner t v.
+Proof.
+  intros Ht. destruct t; try reflexivity. destruct v; try (cbn in Ht; discriminate). cbn [has_type] in Ht.
+  unfold save_root1, save_scalar_root. cbn [save_inner save_scalar_inner].
+  destruct k; try reflexivity; f_equal; f_equal; unfold wrap32, wrapu32, in_range, ity_min, ity_max in *; lia.
 Qed.
 
 Lemma save_json_inner t v : has_type t v = true -> save_json t v = save_inner t v.
 Proof.
-  intros Ht. destruct t; try reflexivity. destruct v; try (cbn in Ht; discriminate). cbn [has_type] in Ht.
-  unfold save_json, save_scalar_root. cbn [save_inner save_scalar_inner].
-  destruct k; try reflexivity; f_equal; f_equal; unfold wrap32, wrapu32, in_range, ity_min, ity_max in *; lia.
+  intros Ht. destruct t; try (apply save_root1_inner; exact Ht).
+  destruct v as [ | | | | | | | [x|] | | ]; try (cbn in Ht; discriminate); [|reflexivity].
+  cbn [has_type] in Ht. unfold save_json. cbn [save_inner]. apply save_root1_inner. exact Ht.
 Qed.
 
 (* full strength: the value comes back or the save raises; it raises only for a value with a non-finite double *)
@@ -490,7 +548,8 @@ Proof.
   unfold roundtrip_json in Hr. rewrite (save_json_inner t v Ht) in Hr.
   destruct (save_inner t v) as [d|] eqn:Es; [|discriminate]. inversion Hr; subst. clear Hr.
   pose proof (save_nonfinite t v d Es) as Hnf.
-  assert (L : load_json i2d o t d = Ok v). { unfold load_json. rewrite (rt_all i2d o t Hwf v d Ht Es). reflexivity. }
+  assert (L : load_json i2d o t d = Ok v).
+  { unfold load_json. pose proof (proj1 (rt_all i2d o t Hwf) v d Ht Es) as G. destruct (load_inner i2d o t d); cbn in G; inversion G; subst; reflexivity. }
   unfold finalize_json. destruct (accept d) as [ok ev] eqn:Ea. destruct ok.
   - rewrite L. split; [right; reflexivity | intros _; reflexivity].
   - split; [left; reflexivity|]. intros Hv. rewrite <- Hnf in Hv. pose proof (accept_ok d Hv) as H. rewrite Ea in H. discriminate.
@@ -570,27 +629,64 @@ Qed.
 (* H_px (tested on every run, not proved): what pugixml's parser (parse_default | parse_ws_pcdata_single) hands back for
    a document that pugixml wrote from this DOM: the DOM itself, except that a carriage return in character data comes
    back as a line feed (saved_view) *)
-Definition roundtrip_xml (dtoa17 : N -> list N) (xstrtod : list N -> option N) (o : opts) (key : option (list N)) (t : ty) (v : val)
+Definition roundtrip_xml (dtoa17 dtoa9 : N -> list N) (xstrtod xstrtof : list N -> option (option N)) (o : opts) (key : option (list N)) (t : ty) (v : val)
   : option outcome :=
-  option_map (fun d => load_xml xstrtod o key t (saved_view d)) (save_xml dtoa17 key t v).
+  option_map (fun d => load_xml xstrtod xstrtof o key t (saved_view d)) (save_xml dtoa17 dtoa9 key t v).
 
 (* the full statement (every well-typed value comes back) fails in the model of the current code:
    J41, a carriage return silently becomes a line feed *)
-Lemma xml_roundtrip_refuted dtoa17 xstrtod :
-  roundtrip_xml dtoa17 xstrtod mkT None (TyVec TyStr) (VArr [VStr [97; 13; 98]]) = Some (Ok (VArr [VStr [97; 10; 98]])).
+Lemma xml_roundtrip_refuted dtoa17 dtoa9 xstrtod xstrtof :
+  roundtrip_xml dtoa17 dtoa9 xstrtod xstrtof mkT None (TyVec TyStr) (VArr [VStr [97; 13; 98]]) = Some (Ok (VArr [VStr [97; 10; 98]])).
 Proof. reflexivity. Qed.
 
 (* the former findings F29, F29a, F29w are repaired: an empty container below the root, a class with attributes only
    inside a container, a white-space-only string *)
-Example xml_roundtrip_repaired dtoa17 xstrtod :
-  roundtrip_xml dtoa17 xstrtod mkT None (TyVec (TyVec (TyInt I32))) (VArr [VArr [VInt 1]; VArr []]) = Some (Ok (VArr [VArr [VInt 1]; VArr []])) /\
-  roundtrip_xml dtoa17 xstrtod mkT None (TyVec ty_attronly) (VArr [VObj [([120], VInt 1); ([116; 121; 112; 101], VStr [82])]]) =
+Example xml_roundtrip_repaired dtoa17 dtoa9 xstrtod xstrtof :
+  roundtrip_xml dtoa17 dtoa9 xstrtod xstrtof mkT None (TyVec (TyVec (TyInt I32))) (VArr [VArr [VInt 1]; VArr []]) = Some (Ok (VArr [VArr [VInt 1]; VArr []])) /\
+  roundtrip_xml dtoa17 dtoa9 xstrtod xstrtof mkT None (TyVec ty_attronly) (VArr [VObj [([120], VInt 1); ([116; 121; 112; 101], VStr [82])]]) =
     Some (Ok (VArr [VObj [([120], VInt 1); ([116; 121; 112; 101], VStr [82])]])) /\
-  roundtrip_xml dtoa17 xstrtod mkT None (TyVec TyStr) (VArr [VStr [32]; VStr [97]; VStr []]) = Some (Ok (VArr [VStr [32]; VStr [97]; VStr []])).
+  roundtrip_xml dtoa17 dtoa9 xstrtod xstrtof mkT None (TyVec TyStr) (VArr [VStr [32]; VStr [97]; VStr []]) = Some (Ok (VArr [VStr [32]; VStr [97]; VStr []])).
 Proof. repeat split; reflexivity. Qed.
 
-Example xml_roundtrip_example dtoa17 xstrtod :
-  roundtrip_xml dtoa17 xstrtod mkT (Some [83]) (TyMap (TyVec ty_attr))
+Example xml_roundtrip_example dtoa17 dtoa9 xstrtod xstrtof :
+  roundtrip_xml dtoa17 dtoa9 xstrtod xstrtof mkT (Some [83]) (TyMap (TyVec ty_attr))
     (VObj [([107], VArr [VObj [([97], VInt (-5)); ([115], VStr [60; 34; 10]); ([98], VBool true); ([117], VInt 18446744073709551615); ([118], VInt 7); ([116], VStr [120; 32])]])]) =
   Some (Ok (VObj [([107], VArr [VObj [([97], VInt (-5)); ([115], VStr [60; 34; 10]); ([98], VBool true); ([117], VInt 18446744073709551615); ([118], VInt 7); ([116], VStr [120; 32])]])])).
 Proof. reflexivity. Qed.
+
+(* ================================================================== the output options reach the writer (C08) *)
+
+(* what the options mean (serialization_options.h, docs): a string is UTF-8 without BOM whatever the stream options say;
+   a stream is the text in the encoding scheme of streamOptions.encoding, preceded by U+FEFF in that scheme iff writeBom *)
+Definition enc_scheme (u : utf) : width * endian :=
+  match u with Utf8 => (W8, LE) | Utf16le => (W16, LE) | Utf16be => (W16, BE) | Utf32le => (W32, LE) | Utf32be => (W32, BE) end.
+
+Definition spec_bytes (o : sopts) (cps : list N) : list N :=
+  if so_stream o then
+    let (w, e) := enc_scheme (so_enc o) in
+    (if so_bom o then units_bytes e w (encs w [0xFEFF]) else []) ++ units_bytes e w (encs w cps)
+  else encs W8 cps.
+
+Definition spec_indent (o : sopts) : option (N * N) := if so_fmt o then Some (so_pad o, so_cnt o) else None.
+
+Lemma units_bytes_w8 e l : units_bytes e W8 l = l.
+Proof. induction l as [|x l IH]; [reflexivity|]. cbn. unfold units_bytes in IH. rewrite IH. reflexivity. Qed.
+
+Lemma options_passed o cps :
+  rj_put (json_writer o) cps = spec_bytes o cps /\ w_indent (json_writer o) = spec_indent o.
+Proof.
+  split; [|reflexivity].
+  destruct o as [st enc bom fmt pad cnt]. unfold rj_put, json_writer, spec_bytes. cbn [so_stream so_enc so_bom w_bom w_utf].
+  destruct st.
+  - destruct enc, bom; reflexivity.
+  - cbn. apply units_bytes_w8.
+Qed.
+
+Lemma to_rapid_utf_injective a b : to_rapid_utf a = to_rapid_utf b -> a = b.
+Proof. destruct a, b; intros H; try discriminate; reflexivity. Qed.
+
+Example options_example :
+  rj_put (json_writer (mkSopts true Utf16be true true 32 2)) [91; 233; 0x1F600] = [0xFE; 0xFF; 0; 91; 0; 233; 0xD8; 0x3D; 0xDE; 0] /\
+  rj_put (json_writer (mkSopts false Utf16be true false 9 1)) [91; 233] = [91; 0xC3; 0xA9] /\
+  w_indent (json_writer (mkSopts true Utf8 false true 9 3)) = Some (9, 3).
+Proof. repeat split; reflexivity. Qed.
